@@ -420,10 +420,10 @@ func (c *Ctx) alwaysReturnsErr(stmts []ast.Stmt) bool {
 	info := c.fit.TypesInfo
 	switch s := stmts[len(stmts)-1].(type) {
 	case *ast.ReturnStmt:
-		if len(s.Results) != 1 {
+		if len(s.Results) == 0 {
 			return false
 		}
-		return c.nonNilErrExpr(info, s.Results[0])
+		return c.nonNilErrExpr(info, s.Results[len(s.Results)-1]) // the error is the last result
 	case *ast.SwitchStmt:
 		hasDefault := false
 		for _, cl := range s.Body.List {
@@ -734,10 +734,36 @@ func c03EncodeSwitch(c *Ctx, r *Report, pairing map[int64]*ftPair) {
 		return
 	}
 	var sw *ast.SwitchStmt
-	for _, s := range fd.Body.List {
-		if x, ok := s.(*ast.SwitchStmt); ok && x.Tag != nil {
-			if call, ok := x.Tag.(*ast.CallExpr); ok && isMethod(callee(info, call), modPath, "File", "Type") {
-				sw = x
+	findSwitch := func(d *ast.FuncDecl) *ast.SwitchStmt {
+		for _, s := range d.Body.List {
+			if x, ok := s.(*ast.SwitchStmt); ok && x.Tag != nil {
+				if call, ok := x.Tag.(*ast.CallExpr); ok && isMethod(callee(info, call), modPath, "File", "Type") {
+					return x
+				}
+			}
+		}
+		return nil
+	}
+	sw = findSwitch(fd)
+	if sw == nil {
+		// the switch may live in a helper that Encode calls with its *File (fileTypeData(file))
+		if enc := c.ssaFn(c.fn(c.fit, "Encode")); enc != nil {
+			for _, ci := range allCalls(enc) {
+				g := ci.Common().StaticCallee()
+				if g == nil || fnPkgPath(g) != modPath {
+					continue
+				}
+				passesFile := false
+				for _, a := range ci.Common().Args {
+					if p, ok := a.(*ssa.Parameter); ok && strings.HasSuffix(p.Type().String(), ".File") {
+						passesFile = true
+					}
+				}
+				if d := c.declOfSSA(g); passesFile && d != nil && d.Body != nil {
+					if x := findSwitch(d); x != nil {
+						sw, fd = x, d
+					}
+				}
 			}
 		}
 	}
